@@ -53,6 +53,11 @@ CLAIMED = {
     note="Quick: 1 type, or 2 types in one window; thorough: 2-3 types in distinct windows and the iterator. generate_nsecs / generate_nsec3s (SortedRecords, ring SHA-1) are outside the claim.",
     technique=KANI + "; differential against an independent RFC 4034 4.1.2 bitmap reader",
     ref="DESIGN.md §4 C13"),
+ "C01": dict(
+    text="The read-side kernels that CBMC can execute: ParsedName::skip (used by every section hop and record skip) accepts a name exactly when its uncompressed part is at most 255 octets and stops right behind it, for all four-label names up to the limit; the slice label iterator (Label::iter_slice) terminates on every 6-octet input from every start, stays fused after None, and never panics.",
+    note="Everything that goes through ParsedName::parse_ref - Question/record parsing, section iteration, canonical_name, is_answer, typed RDATA with names, display - is outside the claim: CBMC's symbolic execution of parse_ref's two nested loops does not finish even on 4 octets or on fully concrete input (measurements in DESIGN section 2), so two of the three known counterexamples of this property (ANCOUNT overflow in canonical_name, non-XFR question in the XFR interpreter) are not decided here. Typed RDATA parsing for name-free types is covered under C05.",
+    technique=KANI + "; termination via unwinding assertions with a pigeonhole bound, non-termination counterexamples replayed natively from the CBMC trace",
+    ref="DESIGN.md §4 C01"),
 }
 
 NA = {
